@@ -140,6 +140,22 @@ func jsonFieldCoverage(P *Program) (checked int, violations []string) {
 	}
 	for _, path := range paths {
 		pkg := P.ByPath[path]
+		// helpers of the package that wrap the tolerant enum reader (one level)
+		enumHelpers := map[string]bool{"ReadEnumValue": true}
+		for _, file := range pkg.Syntax {
+			for _, d := range file.Decls {
+				if fd, ok := d.(*ast.FuncDecl); ok && fd.Body != nil && fd.Recv == nil {
+					ast.Inspect(fd.Body, func(m ast.Node) bool {
+						if c, ok := m.(*ast.CallExpr); ok {
+							if se, ok := c.Fun.(*ast.SelectorExpr); ok && se.Sel.Name == "ReadEnumValue" {
+								enumHelpers[fd.Name.Name] = true
+							}
+						}
+						return true
+					})
+				}
+			}
+		}
 		for _, file := range pkg.Syntax {
 			fname := P.Fset.Position(file.Pos()).Filename
 			if strings.HasSuffix(fname, "_test.go") {
@@ -168,6 +184,7 @@ func jsonFieldCoverage(P *Program) (checked int, violations []string) {
 					return true
 				}
 				cases := map[string]bool{}
+				clauseOf := map[string]*ast.CaseClause{}
 				votes := map[*types.Named]int{}
 				for _, cl := range sw.Body.List {
 					cc := cl.(*ast.CaseClause)
@@ -175,6 +192,7 @@ func jsonFieldCoverage(P *Program) (checked int, violations []string) {
 						if bl, ok := e.(*ast.BasicLit); ok && bl.Kind == token.STRING {
 							if v, err := strconv.Unquote(bl.Value); err == nil {
 								cases[v] = true
+								clauseOf[v] = cc
 							}
 						}
 					}
@@ -210,10 +228,17 @@ func jsonFieldCoverage(P *Program) (checked int, violations []string) {
 				}
 				st := target.Underlying().(*types.Struct)
 				var want []string
+				enumNames := map[string]bool{}
 				addTag := func(tag string) {
 					pb := reflect.StructTag(tag).Get("protobuf")
 					if pb == "" {
 						return
+					}
+					if m := tagRe.FindStringSubmatch(pb); m != nil && strings.Contains(pb, ",enum=") && !strings.HasPrefix(m[1], "deprecated_") {
+						enumNames[m[1]] = true
+						if j := jsonRe.FindStringSubmatch(pb); j != nil {
+							enumNames[j[1]] = true
+						}
 					}
 					if m := tagRe.FindStringSubmatch(pb); m != nil {
 						if strings.HasPrefix(m[1], "deprecated_") {
@@ -255,6 +280,28 @@ func jsonFieldCoverage(P *Program) (checked int, violations []string) {
 					checked++
 					if !cases[w] {
 						violations = append(violations, fmt.Sprintf("JSON decoder at %s fills %s.%s but has no case %q: the field is skipped when decoding", where, target.Obj().Pkg().Name(), target.Obj().Name(), w))
+						continue
+					}
+					if enumNames[w] {
+						// an enum may be written as a number or as a name: the case must use the tolerant reader
+						checked++
+						usesEnumReader := false
+						for _, st := range clauseOf[w].Body {
+							ast.Inspect(st, func(m ast.Node) bool {
+								if c, ok := m.(*ast.CallExpr); ok {
+									if se, ok := c.Fun.(*ast.SelectorExpr); ok && enumHelpers[se.Sel.Name] {
+										usesEnumReader = true
+									}
+									if id, ok := c.Fun.(*ast.Ident); ok && enumHelpers[id.Name] {
+										usesEnumReader = true
+									}
+								}
+								return true
+							})
+						}
+						if !usesEnumReader {
+							violations = append(violations, fmt.Sprintf("JSON decoder at %s reads the enum field %q of %s.%s without json.ReadEnumValue: the value written as a NAME is not accepted", where, w, target.Obj().Pkg().Name(), target.Obj().Name()))
+						}
 					}
 				}
 				return true
